@@ -534,6 +534,10 @@ def zoo(tier='quick'):
                       [I('AA', 'BB'), I('BB', 'AA')]))
     Z.append(two_zone('xz_gold_mixed', dict(gov='gold_gov', mm=True), dict(gov='cons', caps=True, firm='fm1'),
                       [G('AA.HH', 'BB.CAP'), G('BB.HH', 'AA.HH')]))
+    # flows whose source / target are firms and governments (not only households), within and across zones
+    Z.append(two_zone('xz_firm_gov_flows', dict(firm='fm1', caps=True), dict(gov='tre_cb', firm='multi'),
+                      [G('AA.GOV', 'AA.BUS', name='SUBSIDY', inc_dst=True), G('AA.BUS', 'BB.HH', name='BONUS', inc_src=True, inc_dst=True),
+                       G('BB.BUS', 'AA.GOV', name='LICENCE', inc_src=False, inc_dst=True), G('BB.TRE', 'AA.CAP', name='COUPON', inc_src=True, inc_dst=False)]))
     # zone = federation, other zone = single country
     p = Plan('xz_fed_plus_single')
     external(p)
